@@ -19,13 +19,14 @@ import (
 
 func TestMain(m *testing.M) { drv.Main(m) }
 
-const rule = "a generated chain configuration (taker-fee rate and distribution splits incl. burn, mint/incentive epoch identifiers, denom creation fee, community-pool swap denom, CL uptimes) and a generated history of 4..24 blocks on the real application through ABCI (InitChain on a fixed-key genesis + deterministic bootstrap, FinalizeBlock with signed transactions of 5 accounts and a full commit of the bonded validators, Commit); block intervals of seconds, an hour, a day, a week or up to 25 days so that hour/day/week epochs, unlock/unbonding maturity and gov voting ends occur; 41 message kinds of bank, gamm (balancer, stableswap), poolmanager (multi-hop exact-in/out, split routes), concentrated-liquidity, lockup, incentives, tokenfactory (incl. force transfers touching module accounts), staking, distribution, superfluid, valset-pref and gov, drawn with weights among the kinds feasible in the leader's committed state; fees in the base denom or in a whitelisted fee token. Oracle: every other fresh node fed the same blocks must return byte-identical ExecTxResults (code, data, log without panic stack traces, gas wanted/used, events), block events, validator updates and app hash for every block; a node initialised (InitChain, all module invariants asserted) from the state exported at a generated height and fed the remaining blocks must return the same tx results (metered gas excepted), block events and validator updates, and its per-module exported genesis and its answers to a fixed list of state queries must equal the source node's one block after the import and at the end of the history. Non-trivial = >= 3 successful transactions of >= 2 modules and at least one block interval >= 1h; distinct by hash of configuration and transaction kinds"
+const rule = "a generated chain configuration (taker-fee rate and distribution splits incl. burn, mint/incentive epoch identifiers, denom creation fee, community-pool swap denom, CL uptimes) and a generated history of 4..24 blocks on the real application through ABCI (InitChain on a fixed-key genesis + deterministic bootstrap, FinalizeBlock with signed transactions of 5 accounts and a full commit of the bonded validators, Commit); block intervals of seconds, an hour, a day, a week or up to 25 days so that hour/day/week epochs, unlock/unbonding maturity and gov voting ends occur; 41 message kinds of bank, gamm (balancer, stableswap), poolmanager (multi-hop exact-in/out, split routes), concentrated-liquidity, lockup, incentives, tokenfactory (incl. force transfers touching module accounts), staking, distribution, superfluid, valset-pref and gov, drawn with weights among the kinds feasible in the leader's committed state; fees in the base denom or in a whitelisted fee token. Oracle: every other fresh node fed the same blocks - a plain one, and a noisy one that before every block runs CheckTx and gas simulation of the block's transactions and of up to two generated transactions that are never included, then ProcessProposal, all on discarded state, and that is rebuilt from its database at a generated height (crash after a commit) - must return byte-identical ExecTxResults (code, data, log without panic stack traces, gas wanted/used, events), block events, validator updates and app hash for every block; a node initialised (InitChain, all module invariants asserted) from the state exported at a generated height and fed the remaining blocks must return the same tx results (metered gas excepted), block events and validator updates, and its per-module exported genesis and its answers to a fixed list of state queries must equal the source node's one block after the import and at the end of the history. Non-trivial = >= 3 successful transactions of >= 2 modules and at least one block interval >= 1h; distinct by hash of configuration and transaction kinds"
 
 // Plan is a self-contained replayable history.
 type Plan struct {
-	Cfg      Config
-	Blocks   []Block
-	ExportAt int // import node starts after this many blocks (0 = no export)
+	Cfg       Config
+	Blocks    []Block
+	ExportAt  int // import node starts after this many blocks (0 = no export)
+	RestartAt int // the noisy replica is rebuilt from its database after this many blocks (0 = never)
 }
 
 func savePlan(p Plan, why string) string {
@@ -179,6 +180,7 @@ func knownImportFailure(msg string) string {
 }
 
 type outcome struct {
+	restarted      bool
 	importExcluded string
 	grafted        []string
 	msg            string // "" = held
@@ -203,7 +205,18 @@ func replicate(p Plan, want []BlockResult, replicas int) (out outcome) {
 					imp.Close()
 				}
 			}()
+			// odd replicas are "noisy": mempool admission, gas simulation (incl. transactions that never make it
+			// into a block) and proposal validation run on discarded state before every block, and the application
+			// is rebuilt from its database once
+			noisy := r%2 == 1
 			for bi, blk := range p.Blocks {
+				if noisy {
+					if p.RestartAt > 0 && bi == p.RestartAt {
+						n.Restart()
+						out.restarted = true
+					}
+					n.Noise(blk.Dt, blk.Txs, blk.Ghosts)
+				}
 				got, err := n.RunBlock(blk.Dt, blk.Txs, blk.Votes)
 				if err != nil {
 					out.msg = fmt.Sprintf("replica %d: %v", r+1, err)
@@ -339,9 +352,13 @@ func runCase(rt *rapid.T, c *drv.Case) {
 	if nb >= 2 && rapid.IntRange(0, 3).Draw(rt, "doExport") > 0 {
 		p.ExportAt = rapid.IntRange(1, nb-1).Draw(rt, "exportAt")
 	}
-	replicas := 1
+	if rapid.IntRange(0, 2).Draw(rt, "doRestart") > 0 {
+		p.RestartAt = rapid.IntRange(1, nb-1).Draw(rt, "restartAt")
+	}
+	// replica 1: plain + export/import; replica 2: noisy + restart; thorough adds one more of each
+	replicas := 2
 	if drv.Thorough() {
-		replicas = 2
+		replicas = 4
 	}
 	out := replicate(p, want, replicas)
 	if out.msg != "" {
@@ -353,6 +370,9 @@ func runCase(rt *rapid.T, c *drv.Case) {
 	}
 	for _, id := range out.grafted {
 		c.Exclude(id + " (state grafted from the source node after the import)")
+	}
+	if out.restarted {
+		c.Class("restart")
 	}
 	if out.imported {
 		c.Class("export-import")
